@@ -428,6 +428,8 @@ def _run(w, plan):
         # the application reacting to one result from inside its callback (e.g. giving up on the sends that followed it)
         for o in after_send_ops.pop(sid_, ()):
             res.probe("op_from_inside_a_result_callback")
+            if o["op"] == "cancel" and o["id"] in sends:
+                sends[o["id"]].setdefault("cancel_trigger", sid_)
             do_op(o)
 
     def do_op(o):
@@ -731,6 +733,12 @@ def _run(w, plan):
         # (the producer looks partitions up only while dispatching a batch: a lookup issued after this send was queued and
         # before its cancel means a batch - maybe the one holding it - was already on its way)
         looking_up = any(s["seq"] < q < s["cancel_seq"] for q in state.get("lookup_seqs", ()))
+        trig = sends.get(s.get("cancel_trigger")) if s.get("cancel_trigger") is not None else None
+        if trig is not None and not any(c["seq"] < trig.get("fire_seq", 0) and any(_contains(lst, trig["kvs"]) >= 0 for tp, lst in c["kvs"].items() if tp[0] == trig["topic"])
+                                        for c in produce_calls):
+            # cancelled from the failure callback of a send that failed *while its batch was being put together* (no
+            # partition for it): the batch - maybe with this send in it - was already on its way
+            looking_up = True
         if not dispatched_before and not looking_up and not _dispatch_in_progress(produce_calls, s, sends, order):
             # never transmitted
             for t, cid, hdr, body, kvs in produce_written:
